@@ -22,7 +22,15 @@ CLASSES = {
     },
     # abstraction of the `end_progs` list: its length and its top frame (what `_tokenize`, `handle_end_progs` and the mode
     # predicates read); frames below the top are not modelled
-    "EndProg": {"mode_kind": "int", "parenlevel": "int", "text": "str", "contline": "str", "start": "pos", "quote": "str"},
+    # mode_kind: 0 None / 1 ModeMiddle / 2 ModeInBraces / 3 ModeInColon;  (pat, patq): the frame's end pattern as (kind, quote), see engine/pymatch.py
+    "EndProg": {"mode_kind": "int", "parenlevel": "int", "text": "str", "contline": "str", "start": "pos", "quote": "str", "pat": "int", "patq": "str",
+                # frame invariant: the end pattern fits the mode and the quote.  Established at the add_prog call sites (precondition of
+                # add_prog, proved there); frames are built only by add_prog and mode / pattern / quote are never written afterwards
+                # (obligations C10.frames.only_add_prog, C10.frames.immutable)
+                "__invariant__": ["0 <= self.mode_kind <= 3",
+                                  "implies(self.mode_kind == 1, self.pat == 2 and self.patq == self.quote and len(self.quote) >= 1)",
+                                  "implies(self.mode_kind == 3, self.pat == 3)",
+                                  "implies(self.mode_kind == 0, self.pat == 1 and self.patq == self.quote and len(self.quote) >= 1)"]},
     "EPStack": {"n": "nat", "top": "obj:EndProg"},
     # an ast node as far as the error helpers look at it: the four position attributes (end_* may be None in general; the
     # grammar only passes nodes built with LOCATIONS, see C04)
@@ -113,6 +121,41 @@ def sf_gen_cat(ex, st, tk, a, b):
     st.assume(z3.Implies(b > a, c == z3.Concat(GCAT(g, a, b - 1), Tok.string(g[b - 1]))))
     st.assume(z3.Implies(b - 1 <= a, GCAT(g, a, b - 1) == z3.StringVal("")))
     return c
+
+
+def sf_mode_kind_of(ex, st, m):
+    """0 for None, 1 ModeMiddle, 2 ModeInBraces, 3 ModeInColon (a mode value or a mode class)"""
+    from engine.pymatch import MODE_KINDS
+    from engine.pyvals import PyConst
+    if m is NONE:
+        return z3.IntVal(0)
+    if isinstance(m, PyConst) and m.name in MODE_KINDS:
+        return z3.IntVal(MODE_KINDS[m.name])
+    if isinstance(m, PyObj) and m.cls == "ModeView":
+        return m.fields["kind"]
+    raise ValueError("mode_kind_of")
+
+
+def sf_mode_level_of(ex, st, m, default):
+    if isinstance(m, PyObj) and m.cls == "ModeView":
+        return m.fields["parenlevel"]
+    return lift(default)
+
+
+def sf_same_frame(ex, st, a, b):
+    """two frames (EndProg abstractions) agree on every field"""
+    from engine.pyvc import eq
+    return z3.And([eq(a.fields[k], b.fields[k]) for k in sorted(a.fields)])
+
+
+def sf_pat_kind(ex, st, p):
+    from engine.pymatch import PyPattern
+    return p.kind if isinstance(p, PyPattern) else z3.IntVal(0)
+
+
+def sf_pat_q(ex, st, p):
+    from engine.pymatch import PyPattern
+    return p.q if isinstance(p, PyPattern) else z3.StringVal("")
 
 
 def sf_prefix_of(ex, st, a, b):
@@ -295,4 +338,4 @@ def sf_node_end(ex, st, n):
 
 SPEC_FUNCS = {"lines_ok": sf_lines_ok, "node_start": sf_node_start, "node_end": sf_node_end, "node_wf": sf_node_wf, "wf_error": sf_wf_error, "tok_wf": sf_tok_wf, "toks_wf": sf_toks_wf, "lines_left": sf_lines_left, "indent_col": sf_indent_col, "indents_wf": sf_indents_wf, "is_blank_char": sf_is_blank_char, "last": sf_last, "lr_cache_ok": sf_lr_cache_ok, "cache_ok": sf_cache_ok, "cache_has": sf_cache_has, "cache_end": sf_cache_end, "cache_tree": sf_cache_tree, "em_cached": sf_em_cached, "tk_ok": sf_tk_ok, "can_peek": sf_can_peek, "layout": sf_layout, "cache_wf": sf_cache_wf, "truthy": sf_truthy, "is_none": sf_is_none, "pos_le": sf_pos_le,
               "endmarker_last": sf_endmarker_last, "endmarker_pulled": sf_endmarker_pulled, "gen_pos": sf_gen_pos,
-              "gen_len": sf_gen_len, "gen_cat": sf_gen_cat, "gen_item": sf_gen_item, "prefix_of": sf_prefix_of, "tok_type": sf_tok_type}
+              "gen_len": sf_gen_len, "gen_cat": sf_gen_cat, "mode_kind_of": sf_mode_kind_of, "mode_level_of": sf_mode_level_of, "pat_kind": sf_pat_kind, "same_frame": sf_same_frame, "pat_q": sf_pat_q, "gen_item": sf_gen_item, "prefix_of": sf_prefix_of, "tok_type": sf_tok_type}
